@@ -6,7 +6,8 @@ From TT Require Import Base.Verdict Geo.Plane.
 Import ListNotations.
 Record case := mkCase { c_sa1 : bool; c_sa2 : bool; c_sb1 : bool; c_sb2 : bool; c_err : bool;
                         c_inside_expected : nat;   (* 0 outside, 1 inside both, 2 not applicable *)
-                        c_checks : list (list N * bool) }.
+                        c_checks : list (list N * bool);
+                        c_sincos45 : bool  (* the input hands the geodesic dependency an angle of exactly 45 + 180k degrees: class of known finding D24 *) }.
 Definition check_case (c : case) : verdict :=
   let model_ok := bounded_ok (c_sa1 c) (c_sa2 c) (c_sb1 c) (c_sb2 c) in
   let tests := forallb snd (c_checks c) in
@@ -15,5 +16,5 @@ Definition check_case (c : case) : verdict :=
              | 1%nat => negb (c_err c)
              | _ => true
              end in
-  if negb tests || negb geo then VV
+  if negb tests || negb geo then (if c_sincos45 c then VK else VV)
   else if Bool.eqb model_ok (negb (c_err c)) then VA else VS.
